@@ -9,6 +9,7 @@ import (
 	"fmt"
 	"sort"
 	"strings"
+	"sync"
 	"text/template"
 
 	"wa-lang.org/wa/internal/backends/compiler_wat/wir"
@@ -32,7 +33,14 @@ func New() *Compiler {
 	return new(Compiler)
 }
 
+// wir keeps the module under construction in a package-level variable
+// (wir.SetCurrentModule), so only one compilation may run at a time.
+var compileMu sync.Mutex
+
 func (p *Compiler) Compile(prog *loader.Program) (output string, err error) {
+	compileMu.Lock()
+	defer compileMu.Unlock()
+
 	p.prog = prog
 
 	// 不同平台 stack 大小不同
